@@ -126,17 +126,23 @@ def histogram_keys(case, mr):
     return [classify(case, None, None) + ':' + (mr.split(' ')[0] if mr else '?')]
 
 CLAIM = {
-    'text': 'Coq theorems (Properties_C02.v) over the model of Handler::evalArguments: a normal return implies that '
-            'every end-of-line rule was checked (mandatory, cardinality minimum, pending requires, all-of, one-of); the '
-            'evaluation step refuses unknown keys, missing values, values that fail a check or do not convert, uses '
-            'beyond the cardinality and arguments excluded earlier (in every spelling, after the repair; the pinned '
-            'notification is proved wrong, C02_pinned_notify_refuted). Staged: the per-element rules are proved on the '
-            'step function, not yet composed into one statement over the identified-argument history. Model tied to '
-            'the code by correspondence on rule-breaking mutations of valid lines.',
-    'note': 'trusted: Coq kernel, extraction, hand-written model (validated by correspondence), configuration '
-            'translation in the OCaml driver; destination kinds and features outside the model are listed in the '
-            'evidence assumptions',
-    'technique': 'Coq proof (soundness lemmas per rule over the handler model) + model/implementation correspondence '
-                 'on generated rule-breaking command lines',
-    'design_ref': 'DESIGN.md section 5, C01-C03',
+    'text': 'Coq theorems (Properties_C02.v) over the model of Handler::evalArguments. Grammar form '
+            '(C02_accepted_obeys_rules): for every configuration, every list of uses and every legal spelling of it, '
+            'a normal return implies the declarative rules on the abstract line - every key designates a defined '
+            'argument, every mandatory argument is used, every value passes its checks and converts, no argument is '
+            'used more often than its cardinality allows, no argument is used after one that excludes it, every '
+            'argument required by a used argument is used after it, all_of / any_of / one_of are met, differ / '
+            'disjoint hold on the final values (invariants over the run). Rule form: step lemmas for unknown keys, '
+            'missing values, checks (inclusive lower / exclusive upper), cardinality, exclusion in every spelling, '
+            'and the end-of-line checks for ANY argv. The pinned notification by spelling is proved wrong '
+            '(C02_pinned_notify_refuted) and was repaired. Model tied to the code by correspondence on rule-breaking '
+            'mutations of valid lines and exhaustive small scopes for differ / disjoint.',
+    'note': 'the grammar form assumes that requires/excludes lists name each argument in one way '
+            '(specs_canonical; the other case is covered by the tie) and speaks about the spellings of ArgH/Spell.v; '
+            'destination kinds and features outside the model are listed in the evidence assumptions. trusted: Coq '
+            'kernel, extraction, hand-written model (validated by correspondence), configuration translation in the '
+            'OCaml driver',
+    'technique': 'Coq proof (soundness by run invariants over the handler model, composed with the C01 simulation '
+                 'theorem) + model/implementation correspondence on generated rule-breaking command lines',
+    'design_ref': 'DESIGN.md section 5 (C01-C03) and 12.2',
 }
